@@ -233,7 +233,7 @@ impl Cartesian<'_> {
             .par_iter()
             .find_map_any(|strategy| {
                 match self.probe_strategy(
-                    strategy, &poses, &stop
+                    from, strategy, &poses, &stop
                 ) {
                     Ok(outcome) => {
                         println!("Strategy worked out: {:?}", strategy);
@@ -261,6 +261,7 @@ impl Cartesian<'_> {
     /// Probe the given strategy
     fn probe_strategy(
         &self,
+        start: &Joints,
         work_path_start: &Joints,
         poses: &Vec<AnnotatedPose>,
         stop: &AtomicBool,
@@ -268,7 +269,16 @@ impl Cartesian<'_> {
         println!("Cartesian planning started, computing strategy {work_path_start:?}");
 
         let started = Instant::now();
-        let mut trace = Vec::with_capacity(100 + poses.len() + 10);
+        // Collision free relocation from the given start into the landing configuration.
+        let onboarding = self.rrt.plan_rrt(start, work_path_start, self.robot, stop)?;
+        let mut trace = Vec::with_capacity(onboarding.len() + poses.len() + 10);
+        // The last value is the landing configuration itself, pushed below as LAND.
+        for joints in onboarding.iter().take(onboarding.len().saturating_sub(1)) {
+            trace.push(AnnotatedJoints {
+                joints: *joints,
+                flags: PathFlags::ONBOARDING,
+            });
+        }
         // Push the strategy point, from here the move must be already CARTESIAN
         trace.push(AnnotatedJoints {
             joints: *work_path_start,
